@@ -19,7 +19,7 @@ theorem pyEq_float {n : NumV} (r r' : Str) (h : notNan (some n) = true) :
   simp [pyEq, leafEq, numOf, NumV.eq_self h]
 theorem pyEq_str (s r r' : Str) : pyEq (.str s r) (.str s r') = true := by
   simp [pyEq, leafEq, numOf]
-theorem pyEq_bytes (c c' : ClsRef) (r : Str) : pyEq (.bytes c r) (.bytes c' r) = true := by
+theorem pyEq_bytes (c c' : ClsRef) (bs : List Nat) (r r' : Str) : pyEq (.bytes c bs r) (.bytes c' bs r') = true := by
   simp [pyEq, leafEq, numOf]
 theorem pyEq_qname (t : Str) : pyEq (.qname t) (.qname t) = true := by
   simp [pyEq, leafEq, numOf]
@@ -287,8 +287,12 @@ theorem rt (W : World) (env : Env) : (v : Val) → RT W env v
   | .none => fun _ _ _ => ⟨.none, by simp [render, eval], pyEq_none, by simp [hashable]⟩
   | .bool b => fun _ _ _ => ⟨.bool b, by simp [render, eval], pyEq_bool b, by simp [hashable]⟩
   | .int i => fun _ _ _ => ⟨.int i, by simp [render, eval], pyEq_int i, by simp [hashable]⟩
-  | .str s r => fun _ _ _ => ⟨.str s r, by simp [render, eval], pyEq_str s r r, by simp [hashable]⟩
-  | .bytes c r => fun _ _ _ => ⟨.bytes bytesT r, by simp [render, eval], pyEq_bytes _ _ r, by simp [hashable]⟩
+  | .str s r => fun _ hok _ => by
+      have hd : decodeStrLit r = some s := by simpa [valOK] using hok
+      exact ⟨.str s r, by simp [render, eval, hd], pyEq_str s r r, by simp [hashable]⟩
+  | .bytes c bs r => fun _ hok _ => by
+      have hd : decodeBytesLit r = some bs := by simpa [valOK] using hok
+      exact ⟨.bytes bytesT bs r, by simp [render, eval, hd], pyEq_bytes _ _ bs r r, by simp [hashable]⟩
   | .float n r => fun _ hok henv => by
       have hn : notNan (some n) = true := by simpa [valOK] using hok
       refine ⟨.float n r, ?_, pyEq_float r r hn, by simp [hashable]⟩
@@ -306,7 +310,8 @@ theorem rt (W : World) (env : Env) : (v : Val) → RT W env v
       have hres : resolve W env callee = .ok c :=
         henv (callee, c) (by simp [render, PyExpr.refs])
       exact ⟨.opaque c callee args n, by simp [render, eval, hres], pyEq_opaque _ _ _ _ hp.1, by simp [hashable]⟩
-  | .enum c m => fun hwf _ henv => by
+  | .enum c m => fun hwf hok henv => by
+      have hn : enumNameOK m = true := by simpa [valOK] using hok
       have hres : resolve W env c.path = .ok c :=
         henv (c.path, c) (by simp [render, PyExpr.refs])
       have hw : isEnumWith W c m = true := by
@@ -315,7 +320,7 @@ theorem rt (W : World) (env : Env) : (v : Val) → RT W env v
       split at hw
       · rename_i r ms hfind
         have hm : m ∈ ms := by simpa using hw
-        exact ⟨.enum c m, by simp [render, eval, hres, hfind, hm], pyEq_enum c m, by simp [hashable]⟩
+        exact ⟨.enum c m, by simp [render, eval, hres, hfind, hm, hn], pyEq_enum c m, by simp [hashable]⟩
       · simp at hw
   | .list xs => fun hwf hok henv => by
       obtain ⟨vs, he, hp, _⟩ := rtL W env xs (by simpa [wf] using hwf) (by simpa [valOK] using hok)
@@ -632,7 +637,7 @@ theorem refs_good (W : World) : (v : Val) → RefsGood W v
   | .bool _ => fun _ _ pc h => by simp [render, PyExpr.refs] at h
   | .int _ => fun _ _ pc h => by simp [render, PyExpr.refs] at h
   | .str _ _ => fun _ _ pc h => by simp [render, PyExpr.refs] at h
-  | .bytes _ _ => fun _ _ pc h => by simp [render, PyExpr.refs] at h
+  | .bytes _ _ _ => fun _ _ pc h => by simp [render, PyExpr.refs] at h
   | .float n r => fun _ _ pc h => by
       cases hf : n.isFin
       · simp [render, hf, PyExpr.refs] at h
@@ -743,11 +748,17 @@ theorem no_risk (W : World) : (v : Val) → NoRisk W v
   | .none => fun _ => by simp [render, PyExpr.syntaxRisk]
   | .bool _ => fun _ => by simp [render, PyExpr.syntaxRisk]
   | .int _ => fun _ => by simp [render, PyExpr.syntaxRisk]
-  | .str _ _ => fun _ => by simp [render, PyExpr.syntaxRisk]
-  | .bytes _ _ => fun _ => by simp [render, PyExpr.syntaxRisk]
+  | .str s r => fun hok => by
+      have hd : decodeStrLit r = some s := by simpa [valOK] using hok
+      simp [render, PyExpr.syntaxRisk, hd]
+  | .bytes _ bs r => fun hok => by
+      have hd : decodeBytesLit r = some bs := by simpa [valOK] using hok
+      simp [render, PyExpr.syntaxRisk, hd]
   | .float n _ => fun _ => by cases hf : n.isFin <;> simp [render, hf, PyExpr.syntaxRisk]
   | .opaque _ _ _ _ => fun _ => by simp [render, PyExpr.syntaxRisk]
-  | .enum _ _ => fun _ => by simp [render, PyExpr.syntaxRisk]
+  | .enum _ m => fun hok => by
+      have hn : enumNameOK m = true := by simpa [valOK] using hok
+      simp [render, PyExpr.syntaxRisk, hn]
   | .qname t => fun _ => by
       simp [render, PyExpr.syntaxRisk, decodeDq_jsonBody t]
   | .list xs => fun hok => by
@@ -794,10 +805,10 @@ theorem valOK_of_dom (W : World) : (v : Val) → domOK W v = true → valOK W v 
   | .none, _ => by simp [valOK]
   | .bool _, _ => by simp [valOK]
   | .int _, _ => by simp [valOK]
-  | .str _ _, _ => by simp [valOK]
-  | .bytes _ _, _ => by simp [valOK]
+  | .str _ _, hd => by simpa [valOK, domOK] using hd
+  | .bytes _ _ _, hd => by simpa [valOK, domOK] using hd
   | .qname _, _ => by simp [valOK]
-  | .enum _ _, _ => by simp [valOK]
+  | .enum _ _, hd => by simpa [valOK, domOK] using hd
   | .float _ _, hd => by simpa [valOK, domOK] using hd
   | .opaque _ _ _ _, hd => by simpa [valOK, domOK] using hd
   | .set _ xs, hd => by
@@ -912,5 +923,21 @@ theorem qnameLitBody_scalar : ∀ (t : Str), qnameLitBody (t.map Char.toNat) = j
         · have : 0xDFFF < c.toNat := h.1
           simp; omega
       simp [qnameLitBody, jsonBody, escapeCp, hns, Char.ofNat_toNat, qnameLitBody_scalar r]
+
+/-! ### when `render` does not refuse, no import shadows a name the source uses -/
+
+theorem importsOK_of_renders (W : World) (v : Val) (hwf : wf W v = true) (hok : valOK W v = true)
+    (hr : renders W v = true) : importsOK W v = true := by
+  simp only [importsOK, importsOKe, List.all_eq_true]
+  intro pc hpc t ht
+  have hg := refs_good W v hwf hok pc hpc
+  have hmem := refs_sub_types (render W v) pc hpc
+  simp only [renders, clashFree, List.all_eq_true] at hr
+  have h := hr t ht pc.2 hmem
+  rw [hg.1]
+  simp only [Bool.or_eq_true, bne_iff_ne, beq_iff_eq] at h ⊢
+  rcases h with h | h
+  · exact Or.inl (Or.inr h)
+  · exact Or.inr h
 
 end Xs.Code
